@@ -124,6 +124,19 @@ class C12(Prop):
                 bool(((Xt2[c] == Xt[c]) | (Xt2[c].isna() & Xt[c].isna())).all()) for c in mc.features)
         except Exception as e:  # noqa: BLE001
             out["retransform_same"] = f"{type(e).__name__}: {e}"[:160]
+        # the same rows under a non-default row index (reversed integers / strings): same outputs, row by row
+        try:
+            same = True
+            for idx in ([len(X0) - 1 - i for i in range(len(X0))], [f"r{i:05d}" for i in range(len(X0))]):
+                Xi = mk_frame(case["X"])
+                Xi.index = idx
+                Xti = mc.transform(Xi)
+                same = same and list(Xti.index) == idx and all(
+                    all((a == b) or (a != a and b != b) for a, b in zip(list(Xti[c]), list(Xt[c])))
+                    for c in mc.features)
+            out["index_invariant"] = same
+        except Exception as e:  # noqa: BLE001
+            out["index_invariant"] = f"{type(e).__name__}: {e}"[:160]
         per = {}
         for name in out["fitted"]:
             cls = name[len(F) + 1:]
@@ -168,6 +181,9 @@ class C12(Prop):
                            f"(kept class columns: {out['columns']})")
         if not out["raw_unchanged"]:
             return False, "raw feature column modified by transform"
+        if out.get("index_invariant", True) is not True:
+            return False, ("transform of the same rows under a non-default row index gives other class columns "
+                           f"({out.get('index_invariant')})")
         if out.get("retransform_same") is not True:
             return False, ("transforming the transformed frame again does not reproduce the class columns "
                            f"({out.get('retransform_same')})")
